@@ -15,6 +15,7 @@ import (
 	"os"
 	"os/exec"
 	"path/filepath"
+	"runtime"
 	"sort"
 	"strings"
 )
@@ -58,6 +59,10 @@ func replayCorpus(rep *Report, prop, repo, verif string) {
 		}
 		func() {
 			defer os.RemoveAll(tmp)
+			defer func() {
+				resetProgramCaches()
+				runtime.GC()
+			}()
 			cp := exec.Command("cp", "-a", repo+"/.", tmp)
 			if out, err := cp.CombinedOutput(); err != nil {
 				lines = append(lines, fmt.Sprintf("%s: copy failed: %v %s", filepath.Base(d), err, out))
